@@ -92,28 +92,105 @@ def var_init(d):
     return c[-1] if c and d.get("init") else None
 
 
+class LocalDefs(dict):
+    """{decl id: [(kind, node)]} for the locals and parameters of one function.  kind: init / assign (plain `=`, node =
+    right-hand side) / update (compound assignment or ++/--, node = the operator node) / param.
+    Lookup by *name* (`get`, `[]`, `in`) is offered for convenience and only answers when the name denotes a single
+    declaration in the function; shadowed / re-declared names (`i`, `adr` in several loops) answer with an extra
+    ('ambiguous', None) entry so that nothing is resolved through them by name."""
+
+    def __init__(self):
+        super().__init__()
+        self.names = {}      # id -> name
+        self.ids = {}        # name -> [ids]
+
+    def declare(self, did, name):
+        if did not in self.names:
+            self.names[did] = name
+            self.ids.setdefault(name, []).append(did)
+            super().__setitem__(did, [])
+
+    def of(self, ref_node):
+        """definitions of the variable a DeclRefExpr refers to"""
+        r = (ref_node or {}).get("ref") or {}
+        return super().get(r.get("id"))
+
+    def get(self, key, default=None):
+        if key in self.names:
+            return super().get(key, default)
+        ids = self.ids.get(key)
+        if not ids:
+            return default
+        if len(ids) == 1:
+            return super().get(ids[0], default)
+        out = [("ambiguous", None)]
+        for i in ids:
+            out += super().get(i, [])
+        return out
+
+    def __contains__(self, key):
+        return key in self.names or key in self.ids
+
+    def __getitem__(self, key):
+        r = self.get(key)
+        if r is None:
+            raise KeyError(key)
+        return r
+
+
 def local_defs(fn):
-    """{var name: [defining nodes]}: VarDecl initialisers, `=` right-hand sides; compound assignments and ++/-- are
-    recorded as the assignment node itself (kind != plain)."""
-    out = {}
-    for n in cir.walk(fn):
+    out = LocalDefs()
+    for n in walk_own(fn):
         k = n.get("k")
         if k == "VarDecl":
+            out.declare(n.get("id"), n.get("n"))
             i = var_init(n)
-            out.setdefault(n.get("n"), [])
             if i is not None:
-                out[n.get("n")].append(("init", i))
+                dict.__getitem__(out, n.get("id")).append(("init", i))
         elif k == "ParmVarDecl":
-            out.setdefault(n.get("n"), []).append(("param", n))
-        elif is_assign(n):
+            out.declare(n.get("id"), n.get("n"))
+            dict.__getitem__(out, n.get("id")).append(("param", n))
+    for n in walk_own(fn):
+        if is_assign(n):
             t = cir.strip(cir.kids(n)[0])
             if t is not None and t.get("k") == "DeclRefExpr":
-                nm = (t.get("ref") or {}).get("n")
-                if k == "BinaryOperator":
-                    out.setdefault(nm, []).append(("assign", cir.kids(n)[1]))
-                else:
-                    out.setdefault(nm, []).append(("update", n))
+                did = (t.get("ref") or {}).get("id")
+                if did in out.names:
+                    if n.get("k") == "BinaryOperator":
+                        dict.__getitem__(out, did).append(("assign", cir.kids(n)[1]))
+                    else:
+                        dict.__getitem__(out, did).append(("update", n))
     return out
+
+
+def walk_own(fn):
+    return cir.walk(fn)
+
+
+def root_ref(e):
+    """the DeclRefExpr at the root of an lvalue / pointer expression (a[i].b + k -> a), or None"""
+    n = cir.strip(e)
+    while n is not None:
+        k = n.get("k")
+        if k == "DeclRefExpr":
+            return n
+        if k in ("MemberExpr", "ArraySubscriptExpr"):
+            c = cir.kids(n)
+            n = cir.strip(c[0]) if c else None
+            continue
+        if k == "UnaryOperator" and n.get("op") in ("*", "&"):
+            n = cir.strip(cir.kids(n)[0])
+            continue
+        if k == "BinaryOperator" and n.get("op") in ("+", "-"):
+            n = cir.strip(cir.kids(n)[0])
+            continue
+        return None
+    return None
+
+
+def ref_id(e):
+    r = root_ref(e)
+    return ((r or {}).get("ref") or {}).get("id")
 
 
 def resolve(e, defs, depth=0):
@@ -123,7 +200,7 @@ def resolve(e, defs, depth=0):
         r = s.get("ref") or {}
         if r.get("k") != "VarDecl":
             break
-        d = defs.get(r.get("n")) or []
+        d = defs.of(s) or []
         if len(d) != 1 or d[0][0] != "init":
             break
         s = cir.strip(d[0][1])
@@ -131,15 +208,15 @@ def resolve(e, defs, depth=0):
     return s
 
 
-def aliases(fn, struct, field):
+def aliases(fn, struct, field, defs=None):
     """Local pointer variables whose every definition is rooted at <struct>-><field> (possibly offset, possibly through
-    another alias).  Returns {name}."""
-    defs = local_defs(fn)
+    another alias).  Returns the set of declaration ids."""
+    defs = defs if defs is not None else local_defs(fn)
     out = set()
     changed = True
     while changed:
         changed = False
-        for v, ds in defs.items():
+        for v, ds in dict.items(defs):
             if v in out or not ds:
                 continue
             ok = True
@@ -155,7 +232,7 @@ def aliases(fn, struct, field):
                 rf = modref.root_field(s)
                 if rf is not None and rf[0] == struct and rf[1] == field:
                     continue
-                if rf is None and cir.base_var(s) in out:
+                if rf is None and ref_id(s) in out:
                     continue
                 ok = False
                 break
@@ -248,12 +325,13 @@ class Prov:
     space (taken from an address array with that codomain, or a loop variable / bound over m-><dim>);
     'val:<text>' for anything else that is not a constant or a count (block-internal offset)."""
 
-    def __init__(self, fn, adr_dim, count_arrays, sizes):
+    def __init__(self, fn, adr_dim, count_arrays, sizes, defs=None, offset_structs=()):
         self.fn = fn
+        self.offset_structs = set(offset_structs)   # struct types whose members are block-internal offsets
         self.adr_dim = adr_dim
         self.count_arrays = count_arrays
         self.sizes = set(sizes)
-        self.defs = local_defs(fn)
+        self.defs = defs if defs is not None else local_defs(fn)
         self.bounds = {}
         for n in cir.walk(fn):
             if n.get("k") == "ForStmt":
@@ -262,7 +340,7 @@ class Prov:
                 if cond is not None and cond.get("k") == "BinaryOperator" and cond.get("op") in ("<", "<="):
                     v = cir.strip(cir.kids(cond)[0])
                     if v is not None and v.get("k") == "DeclRefExpr":
-                        self.bounds.setdefault((v.get("ref") or {}).get("n"), []).append(cir.kids(cond)[1])
+                        self.bounds.setdefault((v.get("ref") or {}).get("id"), []).append(cir.kids(cond)[1])
 
     def prov(self, e, seen=frozenset(), as_bound=False):
         s = cir.strip(e)
@@ -292,22 +370,26 @@ class Prov:
             if s.get("arrow") and s.get("n") in self.sizes:
                 # a size is a dimension tag only when it bounds a loop variable; as a plain term it is an offset
                 return {s.get("n")} if as_bound else set()
+            if not s.get("arrow") and cir.kids(s):
+                bt = (cir.strip(cir.kids(s)[0]) or {}).get("t") or ""
+                if bt.replace("const ", "").replace("struct ", "").strip() in self.offset_structs:
+                    return set()
             return {"val:" + cir.text(s)}
         if k == "DeclRefExpr":
             r = s.get("ref") or {}
             if r.get("k") == "EnumConstantDecl":
                 return set()
-            nm = r.get("n")
-            if nm in seen:
+            did = r.get("id")
+            if did in seen:
                 return set()
-            seen = seen | {nm}
+            seen = seen | {did}
             out = set()
-            for b in self.bounds.get(nm, ()):
+            for b in self.bounds.get(did, ()):
                 out |= self.prov(b, seen, True)
-            ds = self.defs.get(nm) or []
+            ds = self.defs.of(s) or []
             for kind, d in ds:
                 if kind == "param":
-                    out.add("param:" + str(nm))
+                    out.add("param:" + str(r.get("n")))
                 elif kind in ("init", "assign"):
                     sd = cir.strip(d)
                     if sd is not None and sd.get("k") == "IntegerLiteral":
@@ -316,8 +398,8 @@ class Prov:
                 elif kind == "update":
                     if d.get("k") == "CompoundAssignOperator":
                         out |= self.prov(cir.kids(d)[1], seen, False)
-            if not ds and nm not in self.bounds:
-                out.add("val:" + str(nm))
+            if not ds and did not in self.bounds:
+                out.add("val:" + str(r.get("n")))
             return out
         return {"val:" + cir.text(s)[:40]}
 
